@@ -97,6 +97,7 @@ def objOnly : Act → Bool
   | .add _ => true
   | .del _ => true
   | .createVT => true
+  | .read => true
   | _ => false
 
 def wfPlan (pre : List (Stmt Act)) (plan : List (Mig Act)) : Bool :=
